@@ -35,7 +35,7 @@ var effectFreePrefixes = []string{
 	"go.uber.org/zap", "fmt.Errorf", "fmt.Sprintf", "fmt.Sprint", "fmt.Sprintln", "errors.New", "time.Now", "time.Since",
 	"github.com/NethermindEth/juno/utils.(*ZapLogger)", "github.com/NethermindEth/juno/utils/log",
 	"(*sync.Mutex).", "(*sync.RWMutex).", "sync.(*Mutex).", "sync.(*RWMutex).", "log.", "(time.Time).", "time.(Time).", "(time.Duration).",
-	"strconv.Itoa", "strconv.FormatUint", "strconv.FormatInt", "encoding/hex.EncodeToString", "runtime.", "context.",
+	"errors.Join", "errors.Unwrap", "errors.As", "strconv.Itoa", "strconv.FormatUint", "strconv.FormatInt", "encoding/hex.EncodeToString", "runtime.", "context.",
 }
 
 func isEffectFree(key string) bool {
@@ -218,6 +218,27 @@ func (fr *Frame) call(st *State, v ssa.Value, cc *ssa.CallCommon, in ssa.Instruc
 			if ci, ok := vc.ctx.closures[ft.S]; ok {
 				return fr.staticCall(st, ci.fn, ci.binds, args, in, setResults, freshResults, unmodelled)
 			}
+		}
+		if p, ok := cc.Value.(*ssa.Parameter); ok && fr.depth == 0 {
+			// a callback passed in by the caller: it may do anything to the heap (an input of the
+			// function, not an unknown of the analysis); its calls and its last result are logged
+			vc.note("%s: callback parameter %s: arbitrary effect on the heap, calls logged", fr.pos(in.Pos()), p.Name())
+			vc.havocAll(st)
+			rs, err := freshResults(st, false)
+			if err != nil {
+				return fr.unsupportedErr(in, err)
+			}
+			ck := "fncalls!" + p.Name()
+			cur, ok := st.ghost[ck]
+			if !ok {
+				cur = vc.fnCallsInit(p.Name())
+			}
+			st.ghost[ck] = vc.Define("fncalls", Add(cur, IntLit(1)))
+			if len(rs) == 1 {
+				st.ghost["fnret!"+p.Name()] = rs[0]
+			}
+			setResults(rs)
+			return nil
 		}
 		return unmodelled("call through a function value")
 	}
@@ -620,7 +641,7 @@ func (fr *Frame) applyContract(st *State, c *FuncContract, key string, sig *type
 		st.mbase = vc.freshName("ep")
 	}
 	for _, g := range c.Assigns {
-		if gv := vc.ctx.ghostVars[c.PkgPath+"::"+g]; gv != nil {
+		if gv := vc.ctx.ghostVars[vc.ctx.ghostKey(c.PkgPath, g)]; gv != nil {
 			vc.havocGhostVar(st, gv)
 		} else {
 			vc.note("contract error: %s assigns unknown ghost variable %s", key, g)
@@ -836,7 +857,7 @@ func (fr *Frame) builtin(st *State, b *ssa.Builtin, cc *ssa.CallCommon, args []T
 			r = App(SInt, "strlen", a)
 		case *types.Map:
 			r = Ite(Eq(Rid(a), IntLit(0)), IntLit(0), Select(vc.mapHeap(st, "len", "", ""), Rid(a)))
-			st.assume(Ge(r, IntLit(0)))
+			st.assume(And(Ge(r, IntLit(0)), Lt(r, IntLitBig(pow2(47)))))
 		case *types.Array:
 			r = IntLit(u.Len())
 		case *types.Pointer:
@@ -874,26 +895,55 @@ func (fr *Frame) builtin(st *State, b *ssa.Builtin, cc *ssa.CallCommon, args []T
 			return nil, fmt.Errorf("append of %s", cc.Args[1].Type())
 		}
 		k := vc.tt.Slots(elem)
+		// the common case append(s, x1, ..., xN): the variadic arguments sit in a fresh [N]T array
+		constN := int64(-1)
+		if sl, ok := cc.Args[1].(*ssa.Slice); ok && sl.Low == nil && sl.High == nil && !strSrc {
+			if al, ok := sl.X.(*ssa.Alloc); ok {
+				if arr, ok := al.Type().Underlying().(*types.Pointer).Elem().Underlying().(*types.Array); ok && arr.Len() <= 4 {
+					constN = arr.Len()
+				}
+			}
+		}
+		if constN >= 0 {
+			tl = IntLit(constN)
+		}
 		newLen := vc.Define("applen", Add(SLen(s), tl))
 		fits := vc.Define("fits", Le(newLen, SCap(s)))
+		var elemVals []Term
+		if constN >= 0 {
+			for i := int64(0); i < constN; i++ {
+				v, err := vc.loadRaw(st, RefAdd(tbase, IntLit(i*k)), elem)
+				if err != nil {
+					constN = -1
+					break
+				}
+				elemVals = append(elemVals, vc.Define("appv", v))
+			}
+		}
+		writeNew := func(b *State, dst Term) {
+			switch {
+			case strSrc:
+				vc.havocRegion(b, elem, dst, tl)
+			case constN >= 0:
+				// plain stores: no bulk-copy lambda needed for a fixed number of elements
+				for i, v := range elemVals {
+					if err := vc.storeAt(b, RefAdd(dst, IntLit(int64(i)*k)), elem, v); err != nil {
+						vc.copyRange(b, elem, dst, tbase, tl)
+						return
+					}
+				}
+			default:
+				vc.copyRange(b, elem, dst, tbase, tl)
+			}
+		}
 		// in-place branch
 		inPlace := st.clone()
-		dstIn := ElemAddr(SBase(s), SLen(s), k)
-		if strSrc {
-			vc.havocRegion(inPlace, elem, dstIn, tl)
-		} else {
-			vc.copyRange(inPlace, elem, dstIn, tbase, tl)
-		}
+		writeNew(inPlace, ElemAddr(SBase(s), SLen(s), k))
 		// realloc branch
 		re := st.clone()
 		nb := vc.allocObject(re, nil)
 		vc.copyRange(re, elem, nb, SBase(s), SLen(s))
-		dstRe := ElemAddr(nb, SLen(s), k)
-		if strSrc {
-			vc.havocRegion(re, elem, dstRe, tl)
-		} else {
-			vc.copyRange(re, elem, dstRe, tbase, tl)
-		}
+		writeNew(re, ElemAddr(nb, SLen(s), k))
 		ncap := vc.Fresh("newcap", SInt)
 		re.assume(And(Ge(ncap, newLen), Lt(ncap, IntLitBig(pow2(62)))))
 		// merge the two
@@ -938,6 +988,22 @@ func (fr *Frame) builtin(st *State, b *ssa.Builtin, cc *ssa.CallCommon, args []T
 		had := And(Neq(Rid(m), IntLit(0)), Select(Select(domH, Rid(m)), key))
 		vc.setMapHeap(st, "len", "", "", Store(lenH, Rid(m), Ite(had, Sub(Select(lenH, Rid(m)), IntLit(1)), Select(lenH, Rid(m)))))
 		vc.setMapHeap(st, "dom", ks, vs, Store(domH, Rid(m), Store(Select(domH, Rid(m)), key, False)))
+		return nil, nil
+	case "clear":
+		mt, ok := cc.Args[0].Type().Underlying().(*types.Map)
+		if !ok {
+			return nil, fmt.Errorf("clear of a non-map")
+		}
+		ks, err1 := vc.tt.SortOf(mt.Key())
+		vs, err2 := vc.tt.SortOf(mt.Elem())
+		if err1 != nil || err2 != nil {
+			return nil, fmt.Errorf("clear on map with unsupported types")
+		}
+		m := args[0]
+		domH := vc.mapHeap(st, "dom", ks, vs)
+		lenH := vc.mapHeap(st, "len", "", "")
+		vc.setMapHeap(st, "dom", ks, vs, Store(domH, Rid(m), Term{fmt.Sprintf("((as const %s) false)", SArray(ks, SBool)), SArray(ks, SBool)}))
+		vc.setMapHeap(st, "len", "", "", Store(lenH, Rid(m), IntLit(0)))
 		return nil, nil
 	case "min", "max":
 		if _, _, ok := isIntType(cc.Args[0].Type()); !ok {
@@ -1044,7 +1110,7 @@ func (fr *Frame) callEffects(ci ssa.CallInstruction, li *loopInfo, ef *effects) 
 					}
 				}
 			}
-		case "delete":
+		case "delete", "clear":
 			fr.addMapEffect(cc.Args[0], li, ef)
 		}
 	case *ssa.Function:
@@ -1217,7 +1283,7 @@ func (fr *Frame) contractCallEffects(c *FuncContract, sig *types.Signature, recv
 
 func (fr *Frame) contractEffects(c *FuncContract, ef *effects) {
 	for _, g := range c.Assigns {
-		ef.ghostVars[c.PkgPath+"::"+g] = true
+		ef.ghostVars[fr.vc.ctx.ghostKey(c.PkgPath, g)] = true
 	}
 	for _, gs := range c.Sets {
 		ef.ghostVars[c.PkgPath+"::"+gs.Var] = true
